@@ -26,7 +26,8 @@
 EXTENDS SoyBundleRun, Json
 
 CONSTANTS CfgName,    \* "none" | "oblig"
-          GSize       \* 2: all pairs of cases; 3: triples over the smallest cases
+          GSize,      \* 2: all pairs of cases; 3: triples over the cases in Small
+          Small       \* the (smallest) cases from which groups of 3 are formed, e.g. {1, 2, 5}
 
 VARIABLES grp,    \* the cases rendered concurrently (indices into Cases)
           rs,     \* per goroutine: its render state
@@ -48,10 +49,14 @@ Two == [params |-> P1("xs"), nsa |-> "", ta |-> "",
 Three == [params |-> P1("x"), nsa |-> "", ta |-> "",
           body |-> <<[k |-> "call", tmpl |-> "c.one", data |-> "all", de |-> [k |-> "null"], params |-> <<>>],
                      Tx("B")>>]
+\* (the message holds only a placeholder: raw text inside a TRANSLATED message
+\* is written from the catalogue without a node of its own, and the harness
+\* renders with a catalogue)
 Four == [params |-> P1("x"), nsa |-> "", ta |-> "",
          body |-> <<[k |-> "letv", name |-> "y", e |-> Var("x")],
                     [k |-> "if", brs |-> <<[c |-> Var("y"), body |-> <<Pr("q4", Var("y"))>>]>>, els |-> NoBody],
-                    [k |-> "msg", desc |-> "m", body |-> <<Tx("M"), Pr("q5", Var("x"))>>]>>]
+                    [k |-> "msg", desc |-> "m", body |-> <<Pr("q5", Var("x"))>>],
+                    Tx("Z")>>]
 
 TheBundle == ("c.one" :> One) @@ ("c.two" :> Two) @@ ("c.three" :> Three) @@ ("c.four" :> Four)
 PrintIds == {"q1", "q2", "q3", "q4", "q5"}
@@ -65,7 +70,6 @@ Cases == << [t |-> "c.one", d |-> "good"],     \* 3 node steps
             [t |-> "c.three", d |-> "good"],   \* 5
             [t |-> "c.four", d |-> "good"],    \* 6
             [t |-> "c.one", d |-> "bad"] >>    \* 1, fails at its first print
-Small == {1, 2, 5}
 
 Groups == IF GSize = 2
           THEN {q \in {<<i, j>> : i \in 1..Len(Cases), j \in 1..Len(Cases)} : q[1] <= q[2]}
